@@ -60,7 +60,7 @@ type Case struct {
 	Pre []string `json:"pre,omitempty"`
 }
 
-var kinds = []string{"mem", "kvplain", "mount", "submem", "cache", "tar", "osfs"}
+var kinds = []string{"mem", "kvplain", "mount", "mountnested", "submem", "cache", "tar", "osfs"}
 
 type built struct {
 	fs         hackpadfs.FS
@@ -141,6 +141,26 @@ func build(c Case) built {
 			}
 		}
 		return b
+	case "mountnested":
+		// the directory under test lives in a file system mounted at o/i, INSIDE the one mounted at o (which has an o-level
+		// directory i/<dir> of its own with other children): every look-up has two mount points that are prefixes of its path
+		root, outer, inner := subj.NewMem(), subj.NewMem(), subj.NewMem()
+		must(root.MkdirAll("o", 0o755))
+		must(outer.MkdirAll("i", 0o755))
+		if c.Dir != "." {
+			must(outer.MkdirAll("i/"+c.Dir, 0o755))
+			must(hackpadfs.WriteFullFile(outer, "i/"+c.Dir+"/shadowed", []byte("s"), 0o600))
+		} else {
+			must(hackpadfs.WriteFullFile(outer, "i/shadowed", []byte("s"), 0o600))
+		}
+		mfs, err := mount.NewFS(root)
+		must(err)
+		must(mfs.AddMount("o", outer))
+		must(mfs.AddMount("o/i", inner))
+		view, err := hackpadfs.Sub(mfs, "o/i")
+		must(err)
+		populate(view, c)
+		return built{fs: view, close: func() {}}
 	case "cache":
 		src := subj.NewMem()
 		populate(src, c)
@@ -513,13 +533,14 @@ func run(t *testing.T, kind string) {
 	})
 }
 
-func TestMem(t *testing.T)     { run(t, "mem") }
-func TestKVPlain(t *testing.T) { run(t, "kvplain") }
-func TestMount(t *testing.T)   { run(t, "mount") }
-func TestSubMem(t *testing.T)  { run(t, "submem") }
-func TestCache(t *testing.T)   { run(t, "cache") }
-func TestTar(t *testing.T)     { run(t, "tar") }
-func TestOSFS(t *testing.T)    { run(t, "osfs") }
+func TestMem(t *testing.T)         { run(t, "mem") }
+func TestKVPlain(t *testing.T)     { run(t, "kvplain") }
+func TestMount(t *testing.T)       { run(t, "mount") }
+func TestSubMem(t *testing.T)      { run(t, "submem") }
+func TestMountNested(t *testing.T) { run(t, "mountnested") }
+func TestCache(t *testing.T)       { run(t, "cache") }
+func TestTar(t *testing.T)         { run(t, "tar") }
+func TestOSFS(t *testing.T)        { run(t, "osfs") }
 
 func TestReplayAll(t *testing.T) {
 	for _, kind := range kinds {
